@@ -21,7 +21,7 @@ import time
 
 ROOT = os.path.dirname(os.path.dirname(os.path.abspath(__file__)))
 REPO = os.environ.get("VERIF_REPO", "/repo")
-CACHE = os.path.join(ROOT, ".cache")
+CACHE = os.environ.get("VERIF_CACHE") or os.path.join(ROOT, ".cache")
 LEAN = os.path.join(ROOT, "lean")
 GEN = os.path.join(LEAN, "XalanModel", "Generated")
 EVID = os.path.join(ROOT, "evidence")
